@@ -44,6 +44,9 @@ def universe(seed, uid):
     o = gen.Opts(attrs=False, nested_arrays=0.0, enums=False, seqs=True, facets=False,
                  prims=['Integer', 'Unicode', 'Boolean', 'Date', 'Integer32', 'Double', 'Uuid'])
     ns = 'urn:vf:c16:u%d' % uid
+    tns = ns
+    if uid % 2:
+        ns = ns + ':types'        # the class tree lives in another namespace than the application's
     types = []
     n = rng.randint(3, 6)
     for i in range(n):
@@ -52,7 +55,7 @@ def universe(seed, uid):
             cands = [t['name'] for t in types if depth_of(types, t['name']) < 3]
             base = rng.choice(cands) if cands else None
         fields = []
-        for j in range(rng.randint(1, 3)):
+        for j in range(rng.randint(1, 3) if (base is None or rng.random() > .25) else 0):      # some subclasses only inherit
             r = rng.random()
             if r < .65:
                 ft = gen.rand_prim(rng, o, allow_occ=False)
@@ -74,7 +77,7 @@ def universe(seed, uid):
         methods.append({'name': 'rep%d' % k, 'args': [['p', {'seq': {'ref': b}, 'max': 'unbounded'}]], 'returns': [{'seq': {'ref': b}, 'max': 'unbounded'}],
                         'style': 'wrapped'})
     methods.append({'name': 'held', 'args': [['h', {'ref': 'Holder'}]], 'returns': [{'ref': 'Holder'}], 'style': 'wrapped'})
-    return {'uid': uid, 'tns': ns, 'types': types, 'services': [{'name': 'Svc', 'methods': methods}]}
+    return {'uid': uid, 'tns': tns, 'types': types, 'services': [{'name': 'Svc', 'methods': methods}]}
 
 
 def depth_of(types, name):
@@ -97,6 +100,20 @@ def make_protocols(kind, poly):
     from spyne.protocol.msgpack import MessagePackDocument
     c = {'json': JsonDocument, 'yaml': YamlDocument, 'msgpack': MessagePackDocument, 'msgpack-bkeys': MessagePackDocument}[kind]
     return c(polymorphic=poly, ignore_wrappers=False), c(polymorphic=poly, ignore_wrappers=False)
+
+
+def bare_subclass_value(ir, t, rng):
+    def subs(name):
+        out = [x['name'] for x in ir['types'] if x['name'] != name and gen._is_sub(ir, x['name'], name)]
+        return out or [name]
+    if 'ref' in t:
+        if t['ref'] == 'Holder':
+            hb = [ft for fn, ft in gen.all_fields(ir, 'Holder') if fn == 'one'][0]['ref']
+            return {'__class__': 'Holder', 'one': {'__class__': rng.choice(subs(hb))},
+                    'many': [{'__class__': hb}, {'__class__': rng.choice(subs(hb))}]}
+        return {'__class__': rng.choice(subs(t['ref']))}
+    inner = t.get('array') or t.get('seq')
+    return [{'__class__': inner['ref']}, {'__class__': rng.choice(subs(inner['ref']))}, {'__class__': rng.choice(subs(inner['ref']))}]
 
 
 def strip_to_declared(ir, t, v):
@@ -220,6 +237,10 @@ def run_universe(R, seed, uid, tier, grow=False):
                     (an, at), = md['args']
                     arg = gen.gen_value(rng, ir, at, top=True, subclass_ok=True)
                     ret = gen.gen_value(rng, ir, md['returns'][0], top=True, subclass_ok=True)
+                    if k == 1:
+                        # instances of proper subclasses without a single member set (nothing in the element uses the namespace)
+                        ret = bare_subclass_value(ir, md['returns'][0], rng)
+                        arg = bare_subclass_value(ir, at, rng)
                     case = {'seed': seed, 'uid': uid, 'kind': kind, 'polymorphic': poly, 'method': md['name'], 'call': k, 'grow': grow}
                     nsub_a, nsub_r = count_sub(ir, at, arg), count_sub(ir, md['returns'][0], ret)
                     # request: with polymorphic off a client can only send what the declared class carries
